@@ -1,0 +1,14 @@
+//go:build verif
+
+package dkg
+
+import "github.com/corestario/kyber"
+
+// SimDealerSecrets returns the coefficients of the dealer's secret polynomial.
+// Used only by the taint and cross-round oracles of the harness in /verif.
+func (d *DKG) SimDealerSecrets() []kyber.Scalar {
+	if d.instance == nil || d.instance.GetDealer() == nil {
+		return nil
+	}
+	return d.instance.GetDealer().PrivatePoly().Coefficients()
+}
